@@ -4,6 +4,9 @@ ENGINES = [
     {"name": "tree", "path": "spec/TreeOps.tla spec/Tree.tla spec/TraceTree.tla harness/drv_tree.c vlib/p_tree.py",
      "serves_properties": ["C01", "C02", "C15"],
      "kind_free_text": "link-level TLA+ model of bintree.c/rbtree.c model-checked by TLC; real-code closure + random histories recorded by a C driver and validated transition-by-transition by TLC"},
+    {"name": "hash", "path": "spec/HashOps.tla spec/Hash.tla spec/TraceHash.tla spec/TraceHashCall.tla harness/drv_hash.c harness/drv_hashcall.c harness/alloc.h vlib/p_hash.py",
+     "serves_properties": ["C03", "C04", "C17", "C19"],
+     "kind_free_text": "bucket-level TLA+ model of hash.c (chains, clean bits, pending geometry, sweep index, hash-function calls as events) model-checked by TLC; real-code closure, random histories and hash-call sweeps validated by TLC"},
 ]
 TB = ("Trusted: TLC, the TLA+ text of the contract operators, the driver's serialiser/id mapping, gcc/glibc. "
       "The concrete model is not trusted: L1 tests it against the code, L0 against the contract. Closure only in the small scope stated in the evidence; beyond it seeded random histories.")
@@ -13,6 +16,18 @@ CHECKS = {
                 note=TB),
     "C02": dict(engine="tree", design_ref="§6 C02", technique="TLA+ model checking (TLC) + trace validation of real-code closure against the spec",
                 text="Every red-black shape and colouring reachable within a 7-9 node pool is visited by TLC on the model and by the driver on the real rbtree.c; in every post-state TLC evaluates root-black, no red-red, equal black height, parent links and 2^height <= (n+1)^2 on the logged links/colours, and the value reported by cstl_rbtree_height; random histories with heavy duplication on 60-400 element pools.",
+                note=TB),
+    "C03": dict(engine="hash", design_ref="§6 C03", technique="TLA+ model checking (TLC) + trace validation of real-code closure against the spec",
+                text="TLC explores the bucket-level model of hash.c to closure (<=3-4 buckets, 4-5 elements with a duplicate key, NULL/two functions, allocation failures, every stage of grow/shrink/function-change rehash incl. resize during a pending resize) checking live-set, size and find (no visit fn / accept x / accept none) contracts on every step; the driver reaches the same number of states on the real code and TLC validates every recorded transition (L1 exact post-state+events, L2 contract), plus seeded random histories on 40-64 elements / <=24 buckets.",
+                note=TB),
+    "C04": dict(engine="hash", design_ref="§6 C04", technique="TLA+ model checking (TLC) + trace validation of real-code closure against the spec",
+                text="In every reachable table state (all rehash stages) foreach (every stop position, with and without the callback erasing and scribbling over the visited element), foreach_const and clear are applied on the model and on the real code; TLC checks the callback multiset equals the live set, the stop value is returned, the bucket array is released, and that every operation following clear+resize completes.",
+                note=TB),
+    "C17": dict(engine="hash", design_ref="§6 C17, §8", technique="TLA+ model checking (TLC) + trace validation; range of built-in hashes validated on observed calls only",
+                text="Fail-stop half: model-checked and trace-validated to closure with bad hash functions returning m, m+1 and SIZE_MAX under current and pending geometry for every keyed entry point and internal evaluator: outcome is abort iff a logged hash call was out of range, and no memory damage (guard bytes) otherwise. Range half: every call of cstl_hash_div/cstl_hash_mul observed in a boundary-biased sweep (Fibonacci worst cases, powers of two +-1, 2^24/2^32 neighbours, SIZE_MAX, random 64-bit) is validated by TLC with r < m on 16-bit limbs - exploration strength only, not a decision for all keys and sizes (single-precision rounding is outside TLC).",
+                note=TB + " The float-grid quantifier of C17 is not covered; see DESIGN §8."),
+    "C19": dict(engine="hash", design_ref="§6 C19", technique="TLA+ model checking (TLC) + trace validation of real-code closure against the spec",
+                text="On every keyed transition of the closure TLC checks: at most three buckets go dirty->clean, the sweep index advances or the rehash finishes, rhclean <= count (bounded completion); after every satisfiable resize the target geometry has the requested count and function; cstl_hash_load (logged x10^6) equals size/target count; with no rehash pending a keyed op makes exactly one hash call with (key, count, most recently requested function).",
                 note=TB),
 }
 NOT_APPLICABLE = {}
